@@ -153,7 +153,7 @@ Proof.
   destruct (beq (cmdchar argv) x44 || beq (cmdchar argv) x54).
   { unfold TInv; cbn [fst reqs]. apply remove_inv; exact HT. }
   destruct (beq (cmdchar argv) x21).
-  { destruct (timer r); [|exact HT]. apply finish_inv; [exact HT|]. apply gate_inv.
+  { match goal with |- context [if ?b then _ else _] => destruct b end; [|exact HT]. apply finish_inv; [exact HT|]. apply gate_inv.
     destruct HI as [H1 H2]. split; cbn [holds ho acct soft refm f_tout]; [exact H1|discriminate]. }
   destruct (beq (cmdchar argv) x4e).
   { destruct (arg 1 argv); [|exact HT]. destruct (nonempty (host r)); [exact HT|].
